@@ -15,6 +15,7 @@ import (
 	"time"
 
 	"github.com/godaddy/asherah/go/appencryption"
+	"github.com/godaddy/asherah/go/appencryption/pkg/persistence"
 
 	"verif.local/harness/fakes"
 	"verif.local/harness/vrt"
@@ -196,6 +197,9 @@ func (r *runner) session(p *proc, part string) (*appencryption.Session, error) {
 	return s, nil
 }
 
+// apiMix decides (deterministically per operation) whether the Store/Load API is used instead of Encrypt/Decrypt.
+func (r *runner) apiMix(p *proc) bool { return (p.opSeq+int(r.opt.Seed))%2 == 0 }
+
 func (r *runner) payload() []byte {
 	sizes := []int{0, 1, 15, 16, 17, 31, 33, 100, 1000}
 	n := sizes[r.rng.Intn(len(sizes))]
@@ -261,7 +265,21 @@ func (r *runner) startOp(p *proc, st Step) {
 		case "Enc":
 			pl := r.payload()
 			keep := append([]byte(nil), pl...)
-			d, err := sess.Encrypt(ctx, pl)
+			var d *appencryption.DataRowRecord
+			var err error
+			if r.apiMix(p) {
+				// the Store API: encrypt + hand the record to the caller's Storer
+				var stored appencryption.DataRowRecord
+				_, err = sess.Store(ctx, pl, persistence.StorerFunc(func(_ context.Context, x appencryption.DataRowRecord) (interface{}, error) {
+					stored = x
+					return "key", nil
+				}))
+				if err == nil {
+					d = &stored
+				}
+			} else {
+				d, err = sess.Encrypt(ctx, pl)
+			}
 			res.payload = keep
 			if err != nil {
 				res.err = err.Error()
@@ -274,7 +292,13 @@ func (r *runner) startOp(p *proc, st Step) {
 			}
 		case "Dec":
 			cp := deepCopy(in.drr)
-			out, err := sess.Decrypt(ctx, cp)
+			var out []byte
+			var err error
+			if r.apiMix(p) {
+				out, err = sess.Load(ctx, "key", persistence.LoaderFunc(func(context.Context, interface{}) (*appencryption.DataRowRecord, error) { return &cp, nil }))
+			} else {
+				out, err = sess.Decrypt(ctx, cp)
+			}
 			if err != nil {
 				res.err = err.Error()
 			} else {
@@ -663,6 +687,9 @@ func Replay(inPath, tracePath, outPath string, opt Options, variants []string, c
 		}
 		if len(capacities) > 0 {
 			o.Capacity = capacities[(n/7)%len(capacities)]
+		}
+		if n%3 == 0 {
+			o.Suffix = "us-west-2" // region-suffixed key ids (a metastore exposing GetRegionSuffix)
 		}
 		evs, drift, fatal := Run(&c, o)
 		mu.Lock()
